@@ -19,6 +19,7 @@ import json
 import os
 import random
 import re
+import shutil
 import subprocess
 
 import common as C
@@ -378,25 +379,26 @@ def model(res, tier):
         if n == LATENT_CFG:
             latent_rec, latent_cex, latent_real = rec, cex[0], real_out
         else:
-            if real_out == norm(cex[0]["out"]):
-                raise C.ToolError("the real passes behave like the mutant %s on its counterexample" % n)
+            if real_out == norm(cex[0]["out"]):   # judged below by the L1 predicates, like any observation
+                res.notes.append("the real passes behave like the mutant %s on its counterexample" % n)
             recs.append(rec)
-    viol, drift, counts, s2, t2 = validate(recs, "sens")
-    report(res, viol, drift, "sensitivity-cex", lambda c: {"shape": c})
-    res.add(sensitivity_configs_failing_as_expected=len(SENSITIVITY), traces_validated_against_impl=counts["runs"],
+    viol, drift, counts, s2, t2 = validate(recs + [latent_rec], "sens")
+    lat = [v for v in viol if v.get("case") == LATENT_CFG]
+    report(res, [v for v in viol if v.get("case") != LATENT_CFG],
+           [d for d in drift if d.get("case") != LATENT_CFG], "sensitivity-cex", lambda c: {"shape": c})
+    res.add(sensitivity_configs_failing_as_expected=len(SENSITIVITY), traces_validated_against_impl=2 * counts["runs"],
             states=s2, transitions=t2)
 
-    # latent: mixed unsafety (not produced by one generation) - confirm what the real code does
-    v, _, cn, s3, t3 = validate([latent_rec], "latent")
+    # latent: mixed unsafety (not produced by one generation) - what the real code does with it
     same = latent_real == norm(latent_cex["out"])
-    kinds = sorted(set(x.get("kind") for x in v))
+    kinds = sorted(set(x.get("kind") for x in lat))
     res.notes.append(
         "LATENT (inputs outside the UniformUnsafety assumption; bindgen emits one unsafety per generation): "
         "merge_extern_blocks keys on (attrs, abi) only; on `%s` the real pass %s the model's counterexample and "
         "yields `%s` - predicates failing on the real output: %s" %
         (render(norm(latent_cex["inp"])), "reproduces" if same else "does NOT reproduce",
          render(latent_real), kinds or "none"))
-    res.add(latent_counterexamples_replayed=1, traces_validated_against_impl=cn["runs"], states=s3, transitions=t3)
+    res.add(latent_counterexamples_replayed=1)
     if not same:
         res.drift.append("mixed-unsafety counterexample of the model is not reproduced by the real merge pass")
 
@@ -615,9 +617,29 @@ def rustc_ok(path, outdir):
     return p.returncode == 0, p.stdout[-1500:]
 
 
+LATENT_CASE = "latent-module-raw-line-mixed-unsafety"
+
+
+def latent_case():
+    """Mixed unsafety is reachable only through user-written module raw lines: a plain `extern "C"` block given
+    by the user next to bindgen's `unsafe extern "C"` blocks (default rust target).  Recorded, not judged."""
+    d = C.workdir("c18-latent")
+    path = os.path.join(d, "latent.h")
+    with open(path, "w") as f:
+        f.write("int f1(int);\nextern int g2;\nint f3(void);\n")
+    return {"id": LATENT_CASE, "header": path, "callbacks": None, "generated": True, "latent": True,
+            "args": ["bindgen", "--formatter=none", "--disable-header-comment", path, "--enable-cxx-namespaces",
+                     "--module-raw-line", "root", 'extern "C" { pub fn user_fn(); }']}
+
+
 def binding_t(res, tier, tamper=None):
-    corpus = C.sample(C.corpus_cases(), None if tier == "thorough" else 100, "c18-t")
-    cases = corpus + generated_cases(tier)
+    allc = C.corpus_cases()
+    corpus = C.sample(allc, None if tier == "thorough" else 150, "c18-t")
+    # the headers written for these passes / ABIs / block attributes are always in
+    always = [c for c in allc if any(a in PASS_FLAGS or a in ("--override-abi", "--wasm-import-module-name")
+                                     for a in c["args"]) and c not in corpus]
+    corpus += always
+    cases = corpus + generated_cases(tier) + [latent_case()]
     d = C.workdir("c18-t")
     jobs = []
     for c in cases:
@@ -710,11 +732,18 @@ def binding_t(res, tier, tamper=None):
     def describe(cid):
         c = byid.get(cid, {})
         return {"args": c.get("args"), "shape": cid}
-    report(res, viol, drift, "T", describe)
+    lat = sorted(set("%s/%s" % (v.get("kind"), CNAME.get((v.get("m"), v.get("s")))) for v in viol
+                     if v.get("case") == LATENT_CASE))
+    res.notes.append("LATENT reachable only with a user-written raw line: `%s` - predicates failing on the real "
+                     "bindgen outputs: %s" % (" ".join(byid[LATENT_CASE]["args"][3:]) if LATENT_CASE in byid else "?",
+                                              lat or "none"))
+    report(res, [v for v in viol if v.get("case") != LATENT_CASE],
+           [x for x in drift if x.get("case") != LATENT_CASE], "T", describe)
     # one real execution of the passes per processed output and one per re-application
     res.add(traces_validated_against_impl=2 * counts["runs"], states=st, transitions=tr,
             t_cases=counts["cases"], t_cases_corpus=sum(1 for c in byid.values() if not c.get("generated")),
-            t_cases_generated=sum(1 for c in byid.values() if c.get("generated")), t_cases_skipped=skipped,
+            t_cases_generated=sum(1 for c in byid.values() if c.get("generated") and not c.get("latent")),
+            t_cases_skipped=skipped,
             t_items_in_unprocessed_bindings=nitems, t_bindgen_runs=len(jobs))
     blocks = sum(1 for r in recs for x in r["a"] if x["k"] == "FM")
     res.add(t_top_level_extern_blocks=blocks)
@@ -722,7 +751,7 @@ def binding_t(res, tier, tamper=None):
         res.sample_case({"binding": "T", "case": c["id"], "args": c["args"][1:]})
 
     # "the result still compiles": generated headers (host target), all four outputs
-    gen_ok = [c for c in ok_cases if c.get("generated")]
+    gen_ok = [c for c in ok_cases if c.get("generated") and not c.get("latent")]
     od = C.workdir("c18-rustc")
 
     def comp(c):
@@ -731,6 +760,7 @@ def binding_t(res, tier, tamper=None):
             sub = os.path.join(od, "%s-%s" % (c["id"], CNAME[cb]))
             os.makedirs(sub, exist_ok=True)
             r[cb] = rustc_ok(os.path.join(d, "%s@%s.rs" % (c["id"], CNAME[cb])), sub)
+            shutil.rmtree(sub, ignore_errors=True)
         return c, r
     compiled = base_bad = 0
     with cf.ThreadPoolExecutor(max_workers=12) as ex:
@@ -826,6 +856,40 @@ def selftest(res, recs):
         if want not in got:
             raise C.ToolError("tamper self-test: %s was not flagged as %s (got %s)" % (name, want, got))
     res.add(tamper_selftests_rejected=len(tests), states=st, transitions=tr)
+
+
+def replay(res, path):
+    """Re-run the violations of a replay file on the real code (R: `src`; T: `args`)."""
+    C.build()
+    with open(path) as f:
+        data = json.load(f)
+    recs, srcs = [], {}
+    for n, v in enumerate(data.get("violations", [])):
+        d = v.get("detail", {})
+        if d.get("src"):
+            src = d["src"]
+            jobs = [{"id": "in", "src": src, "merge": False, "sort": False}]
+            jobs += [{"id": "%d" % ci, "src": src, "merge": m, "sort": so, "rounds": 2}
+                     for ci, (m, so) in enumerate(COMBOS)]
+            out = real_passes(jobs, "replay")
+            if out["in"]["outcome"] != "ok":
+                raise C.ToolError("replay source does not parse: " + out["in"]["msg"])
+            a = tree_of_inventory(out["in"]["rounds"][0]["inv"], ident_by_name)
+            runs = []
+            for ci, (m, so) in enumerate(COMBOS):
+                o = out["%d" % ci]
+                if o["outcome"] != "ok":
+                    res.violation("pass-crash:R:%s:%s" % (CNAME[(m, so)], o["outcome"]), {"src": src, "msg": o["msg"]})
+                    continue
+                runs.append({"m": m, "s": so, "b": tree_of_inventory(o["rounds"][0]["inv"], ident_by_name),
+                             "c": tree_of_inventory(o["rounds"][1]["inv"], ident_by_name)})
+            recs.append({"case": "replay#%d" % n, "a": a, "runs": runs})
+            srcs["replay#%d" % n] = src
+        elif d.get("args"):
+            C.log("replay of a generation case: run `%s` with and without the pass flags" % " ".join(d["args"]))
+    viol, drift, _, st, tr = validate(recs, "replay")
+    report(res, viol, drift, "R", lambda c: {"src": srcs.get(c, ""), "shape": nows(srcs.get(c, ""))[:70]})
+    res.add(states=st, transitions=tr, traces_validated_against_impl=2 * sum(len(r["runs"]) for r in recs))
 
 
 def run(res, tier):
